@@ -371,6 +371,8 @@ def run_unit(u, tier):
             ("dotted-name-beats-namespace-attribute-nested", {"type": "record", "name": "Top", "namespace": "t", "fields": [
                 {"name": "o", "type": {"type": "record", "name": "com.acme.Order", "namespace": "legacy", "fields": [{"name": "f", "type": {"type": "fixed", "name": "Id", "size": 2}}]}},
                 {"name": "i", "type": "com.acme.Id"}]}),
+            ("fixed-default-high-code-points", R({"type": "fixed", "name": "Magic", "size": 4}) | {"fields": [{"name": "m", "type": {"type": "fixed", "name": "Magic", "size": 4}, "default": "\u00ca\u00fe\u00ba\u00be"},
+                                                                                                          {"name": "b", "type": "bytes", "default": "Obj\u00ff"}]}),
             ("enum-300-symbols", {"type": "enum", "name": "Many", "symbols": ["S%d" % i for i in range(300)]}),
             ("enum-256-symbols", R({"type": "enum", "name": "Many", "symbols": ["S%d" % i for i in range(256)]})),
             ("enum-257-symbols", R({"type": "enum", "name": "Many", "symbols": ["S%d" % i for i in range(257)]})),
